@@ -2972,6 +2972,21 @@ define_method(CPPInstance *function, InterrogateType &itype,
     return;
   }
 
+  if ((function->_storage_class & CPPInstance::SC_defaulted) != 0 &&
+      (ftype->_flags & CPPFunctionType::F_constructor) != 0 &&
+      struct_type != nullptr) {
+    // An explicitly defaulted constructor may still be defined as deleted.
+    if ((ftype->_flags & CPPFunctionType::F_copy_constructor) != 0) {
+      if (!struct_type->is_copy_constructible(V_private)) {
+        return;
+      }
+    } else if (ftype->_parameters->_parameters.empty()) {
+      if (!struct_type->is_default_constructible(V_private)) {
+        return;
+      }
+    }
+  }
+
   // As a special kludgey extension, we consider a public static method called
   // "get_class_type()" to be marked published, even if it is not.  This
   // allows us to export all of the TypeHandle system stuff without having to
